@@ -77,7 +77,9 @@ def partitions(tier, seed):
     G = sp.gen()
     sk = sp.struct_keys() + sp.area_keys()
     if quick:
-        sk = sp.rotate(sk, seed, len(sk) // 5)
+        # every structure type with all its generated variants (one path each: every union arm of every type
+        # is decoded in every run); the 468 command/response areas rotate
+        sk = sp.struct_keys() + sp.rotate(sp.area_keys(), seed, len(sp.area_keys()) // 6)
     for k in sk:
         for i, data in enumerate(G.variants(k)):
             parts.extend(shape_parts("C01", PROP, k, "v%d" % i, data, budget=20, enum_leaves=not quick))
